@@ -126,6 +126,26 @@ func genMergeCase(t *rapid.T, withOps bool) (*MergeCase, *world.Model) {
 	}
 	m := world.Generate(t, opt)
 	w := m.Build()
+	// shapes the merger accepts besides identical copies: a plain type split into disjoint field sets, enum extension
+	if m.NServices >= 2 && rapid.IntRange(0, 2).Draw(t, "neutral") == 0 {
+		sdls := make([]string, len(w.Services))
+		for i, s := range w.Services {
+			sdls[i] = s.SDL
+		}
+		a := rapid.IntRange(0, m.NServices-1).Draw(t, "na")
+		b := rapid.IntRange(0, m.NServices-2).Draw(t, "nb")
+		if b >= a {
+			b++
+		}
+		kind := rapid.SampledFrom([]string{"neutralDisjoint", "neutralDisjoint", "neutralIdentical", "neutralEnumExtend"}).Draw(t, "nkind")
+		applyEdit(kind, sdls, a, b, -1)
+		for i := range w.Services {
+			w.Services[i].SDL = sdls[i]
+		}
+		w.Labels = append(w.Labels, kind)
+		m.Labels[kind] = true
+		w.UnionSDL = "" // not needed by the merger checks
+	}
 	c := &MergeCase{World: w, Order: genOrder(t, m.NServices), Merger: "extend"}
 	if rapid.IntRange(0, 3).Draw(t, "sanitize") == 0 {
 		c.Merger = "sanitize"
